@@ -55,6 +55,7 @@ Record BindingMsg := {
   b_auth    : string * string;       (* the two other AccountAuth fields *)
   b_pdid    : string;                (* proof.Did *)
   b_pts     : Z;                     (* proof.Timestamp *)
+  b_message : string;                (* proof.Message: the text the account signed *)
   (* oracles *)
   b_cosmos_signer : option string;   (* bech32 address of the key that validly signed
                                         GetSignData(address-in-accid, proof.Message), if
@@ -318,11 +319,11 @@ Definition dec_auth (v : value) : option (string * (string * string)) :=
 Definition dec_did_op (v : value) : option DidOp :=
   match v with
   | VL [VS "Binding"; VZ now; VS creator; VS accid; VS root; keys; VS accdid; VS au1; VS au2;
-        VS pdid; VZ pts; cs; es; calc] =>
+        VS pdid; VZ pts; VS pmsg; cs; es; calc] =>
       match dec_keys keys, dec_opt_s cs, dec_opt_s es, dec_opt_s calc with
       | Some keys, Some cs, Some es, Some calc =>
           Some (OpBinding now {| b_creator := creator; b_accid := accid; b_root := root; b_keys := keys;
-                                 b_accdid := accdid; b_auth := (au1, au2); b_pdid := pdid; b_pts := pts;
+                                 b_accdid := accdid; b_auth := (au1, au2); b_pdid := pdid; b_pts := pts; b_message := pmsg;
                                  b_cosmos_signer := cs; b_eth_signer := es; b_calc := calc |})
       | _, _, _, _ => None
       end
